@@ -56,6 +56,13 @@ class World {
       t: (v) => !!v || true,
       c: (act, site) => self.condProbe(act, site),
       n: (v) => v,
+      q: (act, site) => {
+        // a function or nothing (for optional calls on a non-member callee)
+        const v = (self.visits.get(site) || 0) + 1
+        self.visits.set(site, v)
+        self.events++
+        return self.rngFor(site + 15485863, v).chance(1, 4) ? null : (x) => x
+      },
       k: (act, site, fn) => {
         // call the function expression back synchronously (fresh activation, default parameter used)
         self.stat('fault:synchronous-callback')
